@@ -43,6 +43,14 @@ class RemoveAnyNeverTransformer(cst.CSTTransformer):
   """
 
   def _is_any_or_never(self, annotation: expression.Annotation | None):
+    if isinstance(annotation, expression.Attribute):
+      # The stub printer writes `typing.Any` / `typing.Never` when the module
+      # defines something named `Any` or `Never` itself.
+      return (
+          isinstance(annotation.value, expression.Name)
+          and annotation.value.value == "typing"
+          and annotation.attr.value in ("Any", "Never")
+      )
     return (
         annotation
         and isinstance(annotation, expression.Name)
